@@ -1,10 +1,128 @@
 import DFV.JsonField
+import DFV.Model.C08
 namespace DFV.Drv
-open Lean DFV
+open Lean DFV DFV.C08
 
-/-- driver ops of property C08 (stub: no ops yet) -/
+namespace C08J
+
+def maskOfJson (j : Json) : R Mask := ndaOfJson boolOfJson false j
+
+def maskToJson (m : Mask) : Json := ndaToJson Json.bool m
+
+def ratArrOfJson (j : Json) : R (NDA Rat) := ndaOfJson ratOfJson 0 j
+
+def padModeOfString : String → R PadMode
+  | "constant" => pure .constant
+  | "edge" => pure .edge
+  | "wrap" => pure .wrap
+  | "symmetric" => pure .symmetric
+  | "reflect" => pure .reflect
+  | s => throw s!"unknown pad mode {s}"
+
+def pairOfJson (j : Json) : R (Nat × Nat) := do
+  match (← arr j).toList with
+  | [a, b] => pure (← natOfJson a, ← natOfJson b)
+  | _ => throw "pair of naturals expected"
+
+def mapOpOfJson (j : Json) : R MapOp := do
+  match ← strOfJson (← fld j "k") with
+  | "take" => pure (.take (← natOfJson (← fld j "ax")) (← natOfJson (← fld j "i")))
+  | "slice" => pure (.slice (← natOfJson (← fld j "ax")) (← natOfJson (← fld j "lo")) (← natOfJson (← fld j "hi")))
+  | "crop" => pure (.crop (← nats j "lo") (← nats j "hi"))
+  | "pad" => pure (.pad (← padModeOfString (← strOfJson (← fld j "mode"))) (← listOf pairOfJson (← fld j "w")))
+  | "resample" => pure (.resample (← nats j "n"))
+  | "rot" => pure (.rot (← natOfJson (← fld j "a")) (← natOfJson (← fld j "b")) (← intOfJson (← fld j "turns")))
+  | s => throw s!"unknown map op {s}"
+
+/-- callables the harness uses: returns the truth value of what the Python callable returns -/
+def funOfJson (j : Json) : R (List Rat → Bool) := do
+  match ← strOfJson (← fld j "kind") with
+  | "halfspace" =>
+    let a ← natOfJson (← fld j "ax")
+    let c ← ratOfJson (← fld j "c")
+    pure fun p => decide (p.getD a 0 < c)
+  | "affine" =>
+    let w ← rats j "w"
+    let c ← ratOfJson (← fld j "c")
+    pure fun p => decide ((List.range w.length).foldl (fun acc k => acc + w.getD k 0 * p.getD k 0) 0 - c ≠ 0)
+  | "ball" =>
+    let ctr ← rats j "centre"
+    let r2 ← ratOfJson (← fld j "r2")
+    pure fun p => decide ((List.range ctr.length).foldl
+      (fun acc k => acc + (p.getD k 0 - ctr.getD k 0) * (p.getD k 0 - ctr.getD k 0)) 0 ≤ r2)
+  | s => throw s!"unknown callable {s}"
+
+/-- mask-level setter argument; a callable comes with the geometry of the receiving mesh -/
+def mspecOfJson (j : Json) : R MSpec := do
+  match ← strOfJson (← fld j "kind") with
+  | "none" => pure .none
+  | "const" => pure (.const (← ratOfJson (← fld j "v")))
+  | "arr" => pure (.arr (← ratArrOfJson j))
+  | "norm" =>
+    let shape ← nats j "shape"
+    let cells ← listOf (listOf ratOfJson) (← fld j "vals")
+    if cells.length ≠ natProd shape then throw "norm: vals length"
+    pure (.norm ((NDA.ofList shape cells []).map sumSq))
+  | "func" =>
+    let g ← funOfJson (← fld j "fun")
+    let pmin ← rats j "pmin"
+    let cell ← rats j "cell"
+    pure (.cells fun i => g (tab pmin.length fun a => pmin.getD a 0 + ((i.getD a 0 : Nat) + 1 / 2 : Rat) * cell.getD a 0))
+  | "bad" => pure .bad
+  | s => throw s!"unknown spec {s}"
+
+def vspecOfJson (j : Json) : R VSpec := do
+  match ← strOfJson (← fld j "kind") with
+  | "none" => pure .none
+  | "norm" => pure .norm
+  | "const" => pure (.const (← ratOfJson (← fld j "v")))
+  | "arr" => pure (.arr (← ratArrOfJson j))
+  | "func" => pure (.func (← funOfJson (← fld j "fun")))
+  | "bad" => pure .bad
+  | s => throw s!"unknown spec {s}"
+
+partial def progOfJson (j : Json) : R Prog := do
+  match ← strOfJson (← fld j "t") with
+  | "leaf" => pure (.leaf (← natOfJson (← fld j "k")))
+  | "pos" => pure (.pos (← progOfJson (← fld j "p")))
+  | "un" => pure (.un (← progOfJson (← fld j "p")))
+  | "binC" => pure (.binC (← progOfJson (← fld j "p")))
+  | "binF" => pure (.binF (← progOfJson (← fld j "p")) (← progOfJson (← fld j "q")))
+  | "map" => pure (.map (← mapOpOfJson (← fld j "op")) (← progOfJson (← fld j "p")))
+  | "vtk" => pure (.vtk (← progOfJson (← fld j "p")))
+  | "hdf5" => pure (.hdf5 (← progOfJson (← fld j "p")))
+  | "setv" => pure (.setv (← mspecOfJson (← fld j "spec")) (← progOfJson (← fld j "p")))
+  | s => throw s!"unknown node {s}"
+
+end C08J
+
+open C08J
+
+/-- driver ops of property C08 -/
 def c08 (op : String) (j : Json) : Option (R Json) :=
   match op with
+  | "eval" => some do
+      let leaves ← listOf maskOfJson (← fld j "leaves")
+      let p ← progOfJson (← fld j "prog")
+      let env : Nat → Mask := fun k => leaves.getD k (NDA.const [] false)
+      match eval env p with
+      | .error e => pure (errJ e)
+      | .ok m =>
+        -- the index-level reading on every cell of the result, and the address of the result's
+        -- buffer in the store model (leaf k lives at address k)
+        let sp := (indicesC m.shape).map (spec env p)
+        let addr := match evalS env id p (leaves.map NDA.toList) with
+          | .ok r => Json.num (JsonNumber.fromNat r.1)
+          | .error _ => Json.null
+        pure (Json.mkObj [("ok", maskToJson m), ("spec", boolsJ sp), ("shapeOf", natsJ (shapeOf env p)),
+                          ("addr", addr), ("nleaves", Json.num (JsonNumber.fromNat leaves.length)),
+                          ("alias", match aliasOf p with
+                            | some k => Json.num (JsonNumber.fromNat k)
+                            | none => Json.null)])
+  | "setvalid" => some do
+      let f ← fldOfJson (← fld j "field")
+      let s ← vspecOfJson (← fld j "spec")
+      pure (resJ fldToJson (setValid f s))
   | _ => none
 
 end DFV.Drv
